@@ -98,6 +98,13 @@ CHECKS = {
         "text": "Producer / consumer / remover / closer programs with virtual gaps around the delay (d/2, d-eps, d, d+eps) run the real DelayedQueue with a scheduling point at every source line of delayed_queue.py; every schedule with <= 1 (quick) / 2 (thorough) preemptions of 6 fixed programs is enumerated, random programs get random schedules; the recorded history must show put order, exactly-once hand-out by get xor remove, no delayed element before put time + d, nothing lost, the strict-clock lateness bound, and the end marker for blocked and later get() after close() (a deadlock state is the violation).",
         "note": "Trusted: vlib/dsched (substitute primitives, differential-tested against the real ones in setup; strict virtual clock). Preemption granularity is a source line; atomicity of single bytecodes is assumed.",
     },
+    "C08": {
+        "engine": "dsched",
+        "design_ref": "DESIGN.md §3.2, §4 C08",
+        "technique": "property-based testing over inputs and schedules: generated native record sequences, batch cuts and gaps around the pairing delay fed through a simulated inotify kernel into the real Inotify/InotifyBuffer/DelayedQueue under a deterministic scheduler (bounded DFS + random schedules); exactly-once / order / pairing oracle on a virtual clock",
+        "text": "Byte-exact inotify_event records (moves with, without and with swapped partners, other events, a sub-watch's IN_IGNORED) are queued by a kernel model in generated batches with gaps of d/2, d-eps, d, d+eps, 2d and generated records-per-read cuts; the real reader, buffer and delay queue run with line-level scheduling points; every delivered item is checked: each record exactly once, singles in kernel order, a pair between its halves and only for the two halves of one cookie, an unpaired MOVED_FROM never before d, a partner queued strictly before the deadline always paired, end marker after close. Every cut of every sequence up to length 4/5 over a reduced alphabet is enumerated; 7 fixed programs get all schedules with <= 1/2 preemptions.",
+        "note": "Trusted: vlib/dsched substitutes, vlib/simkernel.py (validated against the real kernel in setup). Promptness of non-move events is not asserted (the statement gives no bound).",
+    },
 }
 
 ALL = [f"C{i:02d}" for i in range(1, 21)]
